@@ -76,7 +76,8 @@ PROOF_UNITS = {
               for (k, args) in (('HasNode', ('DynGraph',)), ('HasNode', ('DynDiGraph',)), ('NodesAt', ('DynGraph', 'nodes')), ('NodesAt', ('DynDiGraph', 'nodes')),
                                 ('NodesAt', ('DynGraph', 'nodes_iter')), ('NodesAt', ('DynDiGraph', 'nodes_iter')),
                                 ('NumberOfNodes', ('DynGraph',)), ('NumberOfNodes', ('DynDiGraph',)))
-              for m in ('removal', 'accum') for t in ('int', 'none')],
+              for m in ('removal', 'accum') for t in ('int', 'none')]
+           + [('contracts.neighbours', 'GetNodeSnapshots', (cls,), {'mode': m, 't': 'none'}) for cls in ('DynGraph', 'DynDiGraph') for m in ('removal', 'accum')],
     'C09': [('contracts.writers', 'GenerateSnapshots', (cls,), {}) for cls in ('DynGraph', 'DynDiGraph')],
     'C16': [('contracts.convert', 'ToDirected', (), {})] + [('contracts.ctor', 'Init', ('DynDiGraph',), {'edge_removal': 'default'})],
     'C10': [('contracts.writers', 'GenerateInteractions', (cls,), {}) for cls in ('DynGraph', 'DynDiGraph')]
